@@ -72,6 +72,7 @@ def step (st : St) (j : Json) : St × List String :=
     | "enc" => "enc " ++ hx (percentEncode enc s)
     | "dec" => "dec " ++ hx (percentDecode dec s)
     | "ip" => s!"ip {isIP s}"
+    | "wf" => s!"wf {wfDID enc d}"
     | "res" =>
       let resps := ((jArr j "resps").map parseResp).toArray
       let srv : Nat → Req → Option Resp := fun hop _ => (resps[hop]?).join
